@@ -32,6 +32,7 @@ from typing_extensions import Literal, Protocol, Self, assert_never
 
 from pyanalyze.predicates import IsAssignablePredicate
 
+from . import _verif_trace
 from .error_code import Error, ErrorCode
 from .node_visitor import Replacement
 from .options import IntegerOption
@@ -1228,6 +1229,20 @@ class Signature:
         node: Optional[ast.AST] = None,
     ) -> CallReturn:
         bound_args = self.bind_arguments(preprocessed, ctx)
+        if _verif_trace.is_enabled():
+            _verif_trace.emit(
+                "Bind",
+                callee=getattr(self.callable, "__name__", None),
+                lineno=getattr(node, "lineno", None),
+                positions=(
+                    None
+                    if bound_args is None
+                    else [
+                        [name, pos if isinstance(pos, (int, str)) else str(pos)]
+                        for name, (pos, _) in bound_args.items()
+                    ]
+                ),
+            )
         if bound_args is None:
             return self.get_default_return()
         if original_args is not None and isinstance(node, ast.Call):
@@ -2348,6 +2363,8 @@ class OverloadedSignature:
         actual_args = preprocess_args(args, ctx)
         if actual_args is None:
             return AnyValue(AnySource.error)
+        if _verif_trace.is_enabled():
+            _verif_trace.emit("OverloadBegin", lineno=getattr(node, "lineno", None))
         # We first bind the arguments for each overload, to get the obvious errors
         # out of the way first.
         errors_per_overload = []
@@ -2392,6 +2409,21 @@ class OverloadedSignature:
                     is_overload=i != last,
                 )
             errors_per_overload.append(caught_errors)
+            if _verif_trace.is_enabled():
+                _verif_trace.emit(
+                    "OverloadStep",
+                    lineno=getattr(node, "lineno", None),
+                    index=next(j for j, s in enumerate(self.signatures) if s is sig),
+                    cls=(
+                        "error"
+                        if ret.is_error
+                        else (
+                            ("union_any" if ret.used_any_for_match else "union")
+                            if ret.remaining_arguments is not None
+                            else ("any" if ret.used_any_for_match else "clean")
+                        )
+                    ),
+                )
             if ret.is_error:
                 continue
             elif ret.remaining_arguments is not None:
